@@ -1,6 +1,6 @@
 (* Roots/Model.v — the sector-root lists of contracts (properties C03 and C13).
 
-   Mirrors, as they are in /repo at 13cd476 (which contains fixes/C03-updater-stale-oldroots.patch
+   Mirrors, as they are in /repo at 41b4fa3 (the mirrored functions are unchanged since 13cd476; it contains fixes/C03-updater-stale-oldroots.patch
    as 5090bdc — the model's Commit1 rebases u_old — and fixes/C13-rhp2-session-stale-after-renew.patch
    as ba53b85, which is what makes the RHP2 handler honour the callers' discipline of ProofsInv.v):
      host/contracts/contracts.go   ContractUpdater: AppendSector, SwapSectors, TrimSectors,
@@ -20,7 +20,8 @@
                                    "a root is stored" and "a root has a volume slot" go
      persist/sqlite/metrics.go     incrementNumericStat for metricContractSectors only (its
                                    "negative stat value" panic is reachable from the replay code)
-   No proofs here.
+   No proofs here.  The callers of these calls as sessions that take the contract lock: Sess.v; what the
+   chain does to a negotiated renewal: Chain.v (WP-N).
 
    Conventions
    - roots, contract ids and hashes are numbered by the harness (injectively); hash id 0 is
